@@ -48,17 +48,9 @@ where
     if mant == F::Mantissa::ZERO {
         return U::ZERO;
     }
-    if exp < -F::SignedExp::ONE {
-        // in this case, the value is at most a half, so we round (ties to even) to zero
+    if exp <= -F::SignedExp::ONE {
+        // in this case, the value is less than one, so truncates to zero
         return U::ZERO;
-    }
-    if exp == -F::SignedExp::ONE {
-        // exponent is -1, so value is in range [1/2, 1)
-        if mant.is_power_of_two() {
-            // in this case, the value is exactly 1/2, so we round (ties to even) to zero
-            return U::ZERO;
-        }
-        return U::ONE;
     }
     // now we know that the exponent is non-negative so can shift
     // As per Rust's numeric casting semantics (https://doc.rust-lang.org/reference/expressions/operator-expr.html#numeric-cast), casting a float to an integer truncates rather than using ties to even
